@@ -69,3 +69,42 @@ Proof.
 Qed.
 Example sample_utf8 : valid [195; 164; 226; 130; 172; 240; 159; 152; 128] = true /\ valid [237; 160; 128] = false /\ valid [192; 128] = false.
 Proof. vm_compute. auto. Qed.
+
+(* ---- the regenerated keyword table: every spelling (incl. the ASCII transliterations the table lists) is
+   one word, scans to exactly its keyword token + EOF, and so does its capitalised form, unless the capitalised
+   spelling is a table entry of its own (in the pinned table only mal/Mal: MAL vs COUNT_MAL) ---- *)
+Definition capitalise (l : list N) : list N :=
+  match l with
+  | c :: r => (if ((97 <=? c) && (c <=? 122)) || (c =? 228) || (c =? 246) || (c =? 252) then c - 32 else c) :: r
+  | [] => []
+  end.
+Definition capitalised_type (k : list N) (v : N) : N :=
+  match lookup keyword_table (capitalise k) with Some v' => v' | None => v end.
+Definition keyword_row_ok (kv : list N * N) : bool :=
+  match scan Normal (fst kv), scan Normal (capitalise (fst kv)) with
+  | Some [a; e], Some [a'; e'] =>
+    (ty a =? snd kv) && list_eqb (lit a) (fst kv) && (ty e =? tt_EOF) &&
+    (ty a' =? capitalised_type (fst kv) (snd kv)) && list_eqb (lit a') (capitalise (fst kv)) && (ty e' =? tt_EOF)
+  | _, _ => false
+  end.
+Lemma keyword_table_scans : forallb keyword_row_ok keyword_table = true.
+Proof. vm_compute. reflexivity. Qed.
+
+Lemma list_eqb_eq a : forall b, list_eqb a b = true -> a = b.
+Proof.
+  induction a as [|x a IH]; intros [|y b] H; cbn in H; try discriminate H; auto.
+  apply andb_true_iff in H. destruct H as [H1 H2]. apply N.eqb_eq in H1. f_equal; auto.
+Qed.
+
+Theorem keywords_scan k v : In (k, v) keyword_table ->
+  (exists a e, scan Normal k = Some [a; e] /\ ty a = v /\ lit a = k /\ ty e = tt_EOF) /\
+  (exists a e, scan Normal (capitalise k) = Some [a; e] /\ ty a = capitalised_type k v /\ lit a = capitalise k /\ ty e = tt_EOF).
+Proof.
+  intros I. pose proof keyword_table_scans as T. rewrite forallb_forall in T. specialize (T _ I).
+  unfold keyword_row_ok in T. cbn [fst snd] in T.
+  destruct (scan Normal k) as [[|a [|e [|x r]]]|]; try discriminate T.
+  destruct (scan Normal (capitalise k)) as [[|a' [|e' [|x' r']]]|]; try discriminate T.
+  repeat (apply andb_true_iff in T; destruct T as [T ?]).
+  repeat match goal with H : (_ =? _) = true |- _ => apply N.eqb_eq in H | H : list_eqb _ _ = true |- _ => apply list_eqb_eq in H end.
+  split; eauto 10.
+Qed.
